@@ -79,6 +79,30 @@ def any_order_with_captures(g):
     return {"pattern": pat}, insts, "any-order-with-captures"
 
 
+def timed_and_operator_first(g):
+    """`$and` with `times`, its first child an operator ($or / $and_any_order / $and / a counted item) and its last a plain
+    item: the WHOLE sequence is repeated, whatever the first child's own grouping looks like"""
+    a, b, c, z = g.r.sample(["push", "pop", "nop", "inc", "dec", "xor", "ret"], 4)
+    first = g.pick([{"$or": [a, b]}, {"$and_any_order": [a, b]}, {"$and": [a, b]}, {a: {"times": {"min": 1, "max": 2}}}])
+    n = g.pick([2, 2, 3, {"min": 1, "max": 2}])
+    doc = {"pattern": [{"$and": [first, c], "times": n}, z]}
+    if g.chance(0.4):
+        doc["config"] = {"mnemonics-full-match": True}
+    reps = n if isinstance(n, int) else 2
+    body = []
+    for r in range(reps):
+        k = next(iter(first))
+        head = [g.pick([a, b])] if k == "$or" else (g.pick([[a, b], [b, a]]) if k == "$and_any_order" else [a, b] if k == "$and" else [a] * g.int(1, 2))
+        body += head + [c]
+    mut = g.int(0, 3)
+    if mut == 1 and len(body) > 2:
+        del body[len(body) // 2]                       # one instruction of a middle repetition missing
+    elif mut == 2:
+        body = body[: len(body) - 1] + [c, c]         # the last item twice instead of the sequence twice
+    insts = [("%x" % (0xc000 + 3 * i), m, ["%rax"] if m not in ("ret", "nop") else []) for i, m in enumerate(body + [z])]
+    return doc, insts, "timed-and-operator-first"
+
+
 def prefix_alternatives(g):
     """`$or` whose alternatives match a prefix of one another, followed by a continuation that fits only after the
     longer one: alternation must be able to come back to a later alternative (no atomic/possessive grouping)"""
@@ -197,7 +221,7 @@ def run(ctx, factor):
                        "metamorphic check on the implementation; non-trivial = reached the specification comparison")
     rep = ctx.report
     for it in range(ctx.budget(72, 3000) * factor):
-        doc, insts, tag = (any_order_with_captures(ctx.g) if it % 8 == 7 else
+        doc, insts, tag = (any_order_with_captures(ctx.g) if it % 8 == 7 else timed_and_operator_first(ctx.g) if it % 8 == 3 else
                            sibling_any_order(ctx.g) if it % 6 in (0, 1) else and_in_any_order(ctx.g) if it % 6 == 2 else
                            repeated_any_order(ctx.g) if it % 6 == 3 else nested_or_with_range(ctx.g) if it % 12 == 4 else
                            prefix_alternatives(ctx.g) if it % 3 else nested_any_order(ctx.g))
